@@ -75,7 +75,7 @@ pub fn execute(duts: &mut Duts, c: &J) -> J {
     else {
         rec::set_susp(vec![]);
     }
-    let d = duts.get(if c["kind"] == "queue" { "main" } else { iface });
+    let d = duts.get(if c["kind"] == "queue" || c["kind"] == "errtable" { "main" } else { iface });
     match c["kind"].as_str().unwrap_or("") {
         "run" => {
             if !c.get("keep").and_then(|k| k.as_bool()).unwrap_or(false) {
@@ -235,6 +235,20 @@ pub fn execute(duts: &mut Duts, c: &J) -> J {
                 }
             }));
             return r.unwrap_or_else(|_| json!([{"r": "panic"}]));
+        }
+        "errtable" => {
+            // number(), Into<&str>, Display and the Response impl of every standard error
+            let mut rows = Vec::new();
+            for (name, e) in crate::errlist::all_errors() {
+                let n = e.number();
+                let t: &str = e.into();
+                let disp = format!("{}", e);
+                let mut w: Vec<u8> = Vec::new();
+                let _ = rec::block_on(microscpi::Response::write_response(&e, &mut w));
+                rows.push(json!({"name": name, "n": n, "txt": rec::bytes(t.as_bytes()),
+                                 "disp": rec::bytes(disp.as_bytes()), "resp": rec::bytes(&w)}));
+            }
+            return J::Array(rows);
         }
         "parse" => {
             let start: Vec<String> = c["start"]
